@@ -31,10 +31,10 @@ ASSUMPTIONS = [
     "a module sees only its own declarations and its own imports",
 ]
 FLOORS = {
-    "negative": 0.30,
-    "positive": 0.30,
+    "negative": 0.25,
+    "positive": 0.15,
     "ref_under_container": 0.10,
-    "cross_module": 0.10,
+    "cross_module": 0.04,
     "tricky_ident": 0.05,
     "neg_self": 0.02,
     "neg_forward": 0.02,
